@@ -93,6 +93,14 @@ class Boom(Exception):
         return f"Boom({self.name})"
 
 
+class BaseBoom(BaseException):
+    """Like Boom, but not an ``Exception`` (application abort signals, pytest outcomes...)."""
+
+    def __init__(self, name):
+        super().__init__(name)
+        self.name = name
+
+
 def is_anyio_cancel(exc):
     while True:
         if (
@@ -113,7 +121,7 @@ def classify(exc):
         return None
     if isinstance(exc, asyncio.CancelledError):
         return ["cancel", "anyio" if is_anyio_cancel(exc) else "native"]
-    if isinstance(exc, Boom):
+    if isinstance(exc, (Boom, BaseBoom)):
         return ["boom", exc.name]
     if isinstance(exc, BaseExceptionGroup):
         return ["group", [classify(e) for e in exc.exceptions]]
